@@ -36,6 +36,10 @@ def gen(tier, rng):
         yield cv_line(stream, acts, extra=extra), {"n": 2, "order": "upgrade"}
     for x in gen_withheld(tier, rng):
         yield x
+    for x in gen_pending_head(tier, rng):
+        yield x
+    for x in gen_methods(tier, rng):
+        yield x
     for x in swbase.gen_sws(tier, rng):
         yield x
 
@@ -61,6 +65,56 @@ def gen_withheld(tier, rng):
         fin, st = rng.choice([("D", "500"), ("P", "500"), ("R403:6e6f:1", "403")])
         extra = "wu=%s ws=%s we=open limit=1500" % (hx("/w%d" % i), st)
         yield cv_line(head, [action_str([], fin)], eof=False, extra=extra), {"n": 1, "order": "withheld-body"}
+
+
+def gen_methods(tier, rng):
+    """every method (CONNECT, OPTIONS, TRACE, extension tokens ...) answered with success and refusal statuses, with
+    declared and undeclared lengths: exactly the body given to respond must reach the client (only HEAD has none)"""
+    from convgen import AReq, cv_line, action_str, respond_str, body_bytes
+    from common import hx
+    for i in range(30 if tier == "quick" else 400):
+        stream = b""
+        acts, wu, ws, wrb, hd = [], [], [], [], []
+        for k in range(1 + rng.below(3)):
+            m = rng.choice(["CONNECT", "CONNECT", "OPTIONS", "TRACE", "DELETE", "PATCH", "BREW", "HEAD", "GET"])
+            t = "/m%d.%d" % (i, k)
+            r = AReq(method=m, target=t, version=rng.choice(["1.1", "1.1", "1.0"]), headers=[("Host", "h")])
+            if r.version == "1.0":
+                r.conn = "keep-alive"
+            if rng.chance(1, 4):
+                r.headers.append(("TE", rng.choice(["chunked", "identity"])))
+            stream += r.render()
+            st = rng.choice([200, 204, 403, 404, 407, 500, 502])
+            body = body_bytes("b%d.%d" % (i, k), rng.choice([0, 7, 1500]))
+            acts.append(action_str([], respond_str(st, body, rng.chance(1, 2))))
+            wu.append(hx(t))
+            ws.append(str(st))
+            nobody = (m == "HEAD") or st == 204
+            hd.append("1" if m == "HEAD" else "0")
+            wrb.append("-" if nobody else hx(body))
+        extra = "wu=%s ws=%s wrb=%s hd=%s we=closed" % (j(wu), j(ws), j(wrb), j(hd))
+        yield cv_line(stream, acts, extra=extra), {"n": len(acts), "order": "methods"}
+
+
+def gen_pending_head(tier, rng):
+    """answered requests followed by the head of a request whose small body (Content-Length <= 1024, no Expect) has not
+    arrived yet: the library waits for that body before delivering the request, and meanwhile the answers to the earlier
+    requests must have reached the client (they must not wait for a later response to flush them out)"""
+    from convgen import cv_line, action_str
+    from common import hx
+    for i in range(10 if tier == "quick" else 100):
+        stream = b""
+        acts, wu, ws = [], [], []
+        for k in range(1 + rng.below(3)):
+            stream += ("GET /ph%d.%d HTTP/1.1\r\nHost: h\r\n\r\n" % (i, k)).encode()
+            fin, st = rng.choice([("R200:6f6b:1", "200"), ("D", "500"), ("W" + hx(b"HTTP/1.1 299 Raw\r\nContent-Length: 0\r\n\r\n"), "299")])
+            acts.append(action_str([], fin))
+            wu.append(hx("/ph%d.%d" % (i, k)))
+            ws.append(st)
+        cl = rng.choice([1, 5, 1024])
+        stream += ("POST /pending%d HTTP/1.1\r\nHost: h\r\nContent-Length: %d\r\n\r\n" % (i, cl)).encode() + b"x" * rng.choice([0, 0, cl - 1])
+        extra = "wu=%s ws=%s we=open limit=1500" % (j(wu), j(ws))
+        yield cv_line(stream, acts, eof=False, extra=extra), {"n": len(acts), "order": "pending-head-behind"}
 
 
 def nontrivial(case, mo):
